@@ -391,6 +391,11 @@ class IntroVisitorIndirect(ast.NodeVisitor):
     def visit_Call(self, node: ast.Call) -> Any:
         self._called_attr_nodes.add(id(node.func))
         # _logger.debug(f"visit: {node} {dir(node)} {pformat(node)}")
+        # This call is looked at here: its function does not have to be followed by name as well. (For
+        # 'from dds import keep' the by-name visit would analyse a call of keep without arguments, and refuse it.)
+        n = _function_name(node.func)
+        if n:
+            self._store_names.add(LocalVar(n[0]))
         # The list of all the previous interactions.
         # Check the call for dds calls or sub_calls.
         fi_or_p = InspectFunctionIndirect.inspect_call(
